@@ -1,5 +1,6 @@
 SPECIFICATION Spec
 CONSTANTS
+  Shortcut = "none"
   Lo <- LoDef
   Hi <- LoDef
   Stride = 1
